@@ -87,7 +87,7 @@ CHECKS["C13"] = dict(
    ref="C13")
 CHECKS["C15"] = dict(
    technique="offline history checker: digests recorded by one-shot, long-lived and ordered-pair processes checked against the sequential model 'the digest of a request is a constant'; aliasing probes; retained-result re-hash; cache hook state log",
-   text="Exploration: request pool over all symbologies with one QR and one DataMatrix request per distinct Reed-Solomon degree, the same content under varied parameters, and the WithColor entry point of every family; fresh one-shot processes, long-lived histories (ascending/descending/random order, repetitions, retained barcodes re-hashed at the end), every ordered pair of QR degrees (and DataMatrix degrees in thorough) and QR equal-bit-count mode pairs in fresh processes; []byte aliasing, spare-capacity and buffer-reuse probes on Aztec (the same slice with new bytes is encoded again and decoded); QR mask-tie and version-step repetitions.",
+   text="Exploration: request pool over all symbologies with one QR and one DataMatrix request per distinct Reed-Solomon degree, the same content under varied parameters, and the WithColor entry point of every family; fresh one-shot processes, long-lived histories (ascending/descending/random order, repetitions, retained barcodes re-hashed at the end), every ordered pair of QR degrees (and DataMatrix degrees in thorough) and QR equal-bit-count mode pairs in fresh processes; []byte aliasing (overwrite after a first read, and overwrite before the first accessor call on the barcode or its Scale wrapper), spare-capacity and buffer-reuse probes on Aztec (the same slice with new bytes is encoded again and decoded); QR mask-tie and version-step repetitions.",
    note="trusted: SHA-256 digest over bounds, pixels and accessors; hook utils/verif_on.go for the cache-state log",
    ref="C15")
 CHECKS["C16"] = dict(
